@@ -147,6 +147,7 @@ def blkname(n, pad=5):
 
 
 TIMEOUTS = []
+MODEL_TIMEOUT = int(os.environ.get("RBPV_MODEL_TIMEOUT", "1500"))   # seconds for one `rbp-model run` request stream
 
 LOG_RE = re.compile(rb"^\[\d\d:\d\d:\d\d\] (INFO|DEBUG|TRACE|WARN|ERROR) - (\w+): (.*)$")
 
@@ -175,11 +176,15 @@ def other_filesystem():
     return _OTHER_FS[0]
 
 
-def _communicate_tty(cmd, env, preexec, timeout, cwd):
-    """stdout attached to a pseudo-terminal in raw mode (no newline translation); stderr stays a pipe"""
-    import pty, threading, tty
+def _spawn(cmd, env, preexec, cwd, tty):
+    """starts the binary; with `tty`, stdout is a pseudo-terminal in raw mode (no newline translation) read by a pump thread, stderr
+    stays a pipe.  Returns (process, collect) where collect(timeout) -> (stdout bytes, stderr bytes) or raises TimeoutExpired"""
+    if not tty:
+        pr = subprocess.Popen(cmd, stdout=subprocess.PIPE, stderr=subprocess.PIPE, env=env, preexec_fn=preexec, cwd=cwd)
+        return pr, lambda timeout: pr.communicate(timeout=timeout)
+    import pty, threading, tty as _tty
     master, slave = pty.openpty()
-    tty.setraw(slave)
+    _tty.setraw(slave)
     pr = subprocess.Popen(cmd, stdout=slave, stderr=subprocess.PIPE, env=env, preexec_fn=preexec, cwd=cwd)
     os.close(slave)
     chunks = []
@@ -194,29 +199,28 @@ def _communicate_tty(cmd, env, preexec, timeout, cwd):
             chunks.append(b)
     t = threading.Thread(target=pump, daemon=True)
     t.start()
-    try:
-        _, err = pr.communicate(timeout=timeout)
-    except subprocess.TimeoutExpired:
-        pr.kill()
-        _, err = pr.communicate()
-        t.join(2)
-        os.close(master)
-        return _Done(-24, b"".join(chunks), b"TIMEOUT: the run was still alive after %d s and was killed" % timeout)
-    t.join(5)
-    os.close(master)
-    return _Done(pr.returncode, b"".join(chunks), err)
+    def collect(timeout):
+        try:
+            _, err = pr.communicate(timeout=timeout)
+        except subprocess.TimeoutExpired:
+            raise
+        t.join(5)
+        try:
+            os.close(master)
+        except OSError:
+            pass
+        return b"".join(chunks), err
+    return pr, collect
 
 
-def _run_watch(cmd, env, preexec, timeout, dump, cwd=None, tty=False):
+def _run_watch(cmd, env, preexec, timeout, dump, cwd=None, tty=False, restore=None):
     """runs the binary; if it is still alive after `stall` seconds its thread stacks are dumped with gdb (diagnostics of a
     rare stall seen during development), it is killed and the run is repeated once"""
     import time as _t
-    if tty:
-        return _communicate_tty(cmd, env, preexec, timeout, cwd)
     for attempt in (1, 2):
-        pr = subprocess.Popen(cmd, stdout=subprocess.PIPE, stderr=subprocess.PIPE, env=env, preexec_fn=preexec, cwd=cwd)
+        pr, collect = _spawn(cmd, env, preexec, cwd, tty)
         try:
-            out, err = pr.communicate(timeout=min(timeout, 25) if attempt == 1 else timeout)
+            out, err = collect(min(timeout, 25) if attempt == 1 else timeout)
             return _Done(pr.returncode, out, err)
         except subprocess.TimeoutExpired:
             note = os.path.join(C.CACHE, "stall-%d-%d.txt" % (os.getpid(), int(_t.time())))
@@ -231,6 +235,8 @@ def _run_watch(cmd, env, preexec, timeout, dump, cwd=None, tty=False):
             TIMEOUTS.append(" ".join(cmd) + " -> " + note)
             for n in os.listdir(dump):
                 os.unlink(os.path.join(dump, n))
+            if restore:
+                restore()
             if attempt == 2:
                 # the implementation does not terminate on this input: an outcome of the run (reported as exit status -24,
                 # "timed out"), not a failure of the harness
@@ -451,9 +457,11 @@ class Scenario:
             dump = os.path.join(shm, "dump")
         os.makedirs(dump, exist_ok=True)
         left = self.env.get("leftovers") or {}
-        for n, data in left.items():
-            with open(os.path.join(dump, n), "wb") as fh:
-                fh.write(data)
+        def put_leftovers():
+            for n, data in left.items():
+                with open(os.path.join(dump, n), "wb") as fh:
+                    fh.write(data)
+        put_leftovers()
         dir_arg = d
         dump_arg, cwd = dump, None
         if self.env.get("cwd"):
@@ -483,7 +491,7 @@ class Scenario:
                 resource.setrlimit(resource.RLIMIT_NOFILE, (lim, resource.getrlimit(resource.RLIMIT_NOFILE)[1]))
         r = Result()
         try:
-            p = _run_watch(cmd, e, preexec, timeout, dump, cwd=cwd, tty=bool(self.env.get("tty")))
+            p = _run_watch(cmd, e, preexec, timeout, dump, cwd=cwd, tty=bool(self.env.get("tty")), restore=put_leftovers)
             r.exit, r.stdout, r.stderr = p.returncode, p.stdout, p.stderr
             for n in sorted(os.listdir(dump)):
                 with open(os.path.join(dump, n), "rb") as fh:
@@ -545,7 +553,21 @@ def run_model(scenarios):
     lines = []
     for s in scenarios:
         lines.extend(s.model_lines())
-    p = C.run([C.MODEL, "run"], input="\n".join(lines) + "\n")
+    try:
+        p = C.run([C.MODEL, "run"], input="\n".join(lines) + "\n", timeout=MODEL_TIMEOUT)
+    except subprocess.TimeoutExpired:
+        # a model that does not answer decides nothing: name the scenario instead of waiting for ever (Correction 13)
+        slow = None
+        for s in scenarios if len(scenarios) > 1 else []:
+            try:
+                C.run([C.MODEL, "run"], input="\n".join(s.model_lines()) + "\n", timeout=MODEL_TIMEOUT // 4)
+            except subprocess.TimeoutExpired:
+                slow = s
+                break
+        s = slow or scenarios[0]
+        raise RuntimeError("rbp-model gave no answer within %d s%s: coin=%s callback=%s start=%s stop=%s verify=%s meta=%r blk bytes=%d"
+                           % (MODEL_TIMEOUT, "" if slow or len(scenarios) == 1 else " (no single scenario of the chunk is slow by itself; first one shown)", s.coin, s.callback, s.start, s.stop, s.verify, s.meta,
+                              sum(len(d) for f in s.files.values() for _o, d in f["segs"])))
     if p.returncode != 0:
         raise RuntimeError("rbp-model run failed: " + p.stderr.decode(errors="replace")[-500:])
     outs = parse_model_outputs(p.stdout.decode(errors="replace").splitlines())
